@@ -60,10 +60,21 @@ theorem RS_append : ∀ {a b : Str}, RS a → RS b → RS (a ++ b)
         · subst h; simpa using hb
       exact RS_cons_nonempty c htb (by simp [hbn])
 
+theorem sublist_rstrip (ws : Char → Bool) (s : Str) : (rstrip ws s).Sublist s := by
+  induction s with
+  | nil => exact List.Sublist.refl _
+  | cons c s ih =>
+    rw [rstrip_cons]
+    split
+    · split
+      · exact List.nil_sublist _
+      · exact List.Sublist.cons_cons c (List.nil_sublist _)
+    · exact List.Sublist.cons_cons c ih
+
 theorem LS_RS_of_strip {s : Str} (h : strip pyWs s = s) : LS s ∧ RS s := by
   have h1 : (lstrip pyWs s).length ≤ s.length := (List.dropWhile_sublist pyWs).length_le
   have h2 : (strip pyWs s).length ≤ (lstrip pyWs s).length :=
-    (Props.C08.sublist_rstrip pyWs _).length_le
+    (sublist_rstrip pyWs _).length_le
   have hl : lstrip pyWs s = s := by
     have hsub : (lstrip pyWs s).Sublist s := List.dropWhile_sublist pyWs
     apply hsub.eq_of_length
